@@ -988,6 +988,21 @@ Proof.
     unfold v. destruct value as [t|]; [|exact I]. destruct (ignore (DTensor t)); [exact I|]. exact Hal.
 Qed.
 
+(* RecordTensor.constraints shows the caller exactly the constraints it gave (record dimension hidden,
+   the shift of the non-negative dims undone) *)
+Theorem user_cons_created strict live param ucons dt dur incl (value : option (@tensor A D)) (r : @rec Nm A D) :
+  rcreate Nm strict live param ucons dt dur incl value = inl r -> user_cons Nm r = ucons.
+Proof.
+  unfold rcreate. intros Hc.
+  destruct (negb (gtb Nm dt (zero Nm))); [discriminate|]. destruct (negb (geb Nm dur (zero Nm))); [discriminate|].
+  destruct (ignore_or_compatible _ _ strict); [|discriminate]. injection Hc as <-.
+  unfold user_cons, shift_cons. cbn [Resize.rcons]. rewrite map_map.
+  rewrite <- (map_id ucons) at 2. apply map_ext. intros [dd s]. cbn [fst snd].
+  destruct (Z.leb_spec 0 dd) as [H|H].
+  - destruct (Z.leb_spec 0 (dd + 1)); [f_equal; lia|lia].
+  - destruct (Z.leb_spec 0 dd); [lia|reflexivity].
+Qed.
+
 End Create.
 
 (* ------------------------------------------------------------------ the clauses of C13, one by one *)
@@ -1048,6 +1063,58 @@ Proof.
   destruct (setter_spec Nm cast promote D_eqb zeroA default_d r s Hwf Hv Hna Hok)
     as (r' & Hr' & _ & _ & _ & HN & _ & _ & _ & Hc & _ & _ & _ & Hst & _).
   exists r'. destruct (Hst Hnf). auto.
+Qed.
+
+(* the same as one equation on the list of stored observations, newest first: the list is truncated to
+   the new number of slots, or extended behind the oldest observation with zero observations *)
+Theorem resize_hist (r r' : rec) (s : setter Nm) d sh rws :
+  rwf Nm r -> rvalid Nm r = true -> no_alias0 Nm r -> setter_ok Nm r s ->
+  apply_setter Nm zeroA r s = (r', None) -> st (rg Nm r) = SFull d sh rws ->
+  hist (rg Nm r') =
+  firstn (N (rg Nm r')) (hist (rg Nm r) ++ repeat (repeat zeroA (nel sh)) (N (rg Nm r') - N (rg Nm r))).
+Proof.
+  intros Hwf Hv Hna Hok Hr Es.
+  pose proof (resize_preserves_newest r r' s Hwf Hv Hna Hok Hr) as Hnew.
+  pose proof (resize_zero_fills_older r r' s d sh rws Hwf Hv Hna Hok Hr Es) as Hold.
+  set (n := N (rg Nm r)) in *. set (n' := N (rg Nm r')) in *.
+  assert (Hlh : length (hist (rg Nm r)) = n) by (unfold hist; rewrite map_length, seq_length; reflexivity).
+  apply nth_ext with (d := []) (d' := []).
+  - unfold hist at 1. rewrite map_length, seq_length. fold n'.
+    rewrite firstn_length, app_length, repeat_length, Hlh. lia.
+  - intros i Hi. unfold hist at 1 in Hi. rewrite map_length, seq_length in Hi. fold n' in Hi.
+    unfold hist at 1. fold n'.
+    rewrite (nth_indep _ [] (at_ (rg Nm r') (Z.of_nat 0 + 1))) by (rewrite map_length, seq_length; exact Hi).
+    rewrite (map_nth (fun k => at_ (rg Nm r') (Z.of_nat k + 1))), seq_nth by exact Hi. cbn [Nat.add].
+    rewrite nth_firstn_lt by exact Hi.
+    destruct (Nat.lt_ge_cases i n) as [Hlt|Hge].
+    + rewrite app_nth1 by lia. rewrite Hnew by lia.
+      unfold hist. fold n.
+      rewrite (nth_indep _ [] (at_ (rg Nm r) (Z.of_nat 0 + 1))) by (rewrite map_length, seq_length; exact Hlt).
+      rewrite (map_nth (fun k => at_ (rg Nm r) (Z.of_nat k + 1))), seq_nth by exact Hlt. reflexivity.
+    + rewrite app_nth2 by lia. rewrite Hlh. rewrite nth_repeat_lt by lia. apply Hold. lia.
+Qed.
+
+(* RecordTensor.reconstrain on the list of stored observations: untouched by a refused call, an added or
+   a removed constraint; an altered constraint resizes that dimension of every stored observation *)
+Theorem reconstrain_hist (r : rec) dim size d sh rws :
+  rwf Nm r -> rvalid Nm r = true -> no_alias0 Nm r ->
+  (rstrict Nm r = true \/
+   forall d sh rws, st (rg Nm r) = SFull d sh rws -> pyidx (S (length sh)) (shifted dim) <> 0) ->
+  st (rg Nm r) = SFull d sh rws ->
+  let r' := fst (rreconstrain Nm zeroA r dim size) in
+  N (rg Nm r') = N (rg Nm r) /\
+  (hist (rg Nm r') = hist (rg Nm r) \/
+   exists j sz, snd (rreconstrain Nm zeroA r dim size) = None /\ size = Some (Z.of_nat sz) /\
+     In (shifted dim) (map fst (rcons Nm r)) /\ pyidx (S (length sh)) (shifted dim) = S j /\ j < length sh /\
+     hist (rg Nm r') = map (fun o => resize_dim zeroA sh o j sz) (hist (rg Nm r))).
+Proof.
+  intros Hwf Hv Hna Hnew Es.
+  destruct (rreconstrain_spec Nm cast promote D_eqb zeroA default_d r dim size Hwf Hv Hna Hnew)
+    as (r' & e & Hr & _ & _ & _ & HN & _ & _ & _ & _ & _ & _ & _ & _ & Hfull).
+  rewrite Hr. cbn [fst snd]. split; [exact HN|].
+  destruct (Hfull _ _ _ Es) as [(rws' & _ & Hat)|(j & sz & rws' & -> & -> & Hin & Hp & Hj & _ & _ & Hat)].
+  - left. unfold hist. rewrite HN. apply map_ext. intros k. apply Hat.
+  - right. exists j, sz. do 5 (split; [auto|]). unfold hist. rewrite HN, map_map. apply map_ext. intros k. apply Hat.
 Qed.
 
 End Clauses.
